@@ -386,6 +386,16 @@ fn straddling(v: &Value, base: &O) -> Vec<O> {
 }
 
 pub fn generate_layout(args: &Args, out: &mut Out) {
+    generate_layout_with(args, out, true)
+}
+
+/// C04 runs the list-based model parser on every printed text (quadratic in the length of a
+/// container or string): it gets the same suite without the very wide values.
+pub fn generate_c04(args: &Args, out: &mut Out) {
+    generate_layout_with(args, out, false)
+}
+
+fn generate_layout_with(args: &Args, out: &mut Out, very_wide: bool) {
     let mut rng = Rng::new(args.seed);
     let full = args.thorough();
     let small = small_values(2, 2);
@@ -474,6 +484,19 @@ pub fn generate_layout(args: &Args, out: &mut Out) {
             out.case(|| format!("p {} | {{ ${:x} [ ${:x},61 ] }}", ps[i % 2].tokens(), c, c));
         }
     }
+    // 2c. very wide values under the limit-free presets and under a width limit beyond 16 bits
+    if very_wide {
+        let ps = presets();
+        let mut wide = ps[2].clone();
+        wide.al = Some(Limit::Width(1 << 20));
+        wide.ol = Some(Limit::ItemOrWidth(1 << 20, 1 << 20));
+        for (i, v) in big_values(false).into_iter().enumerate() {
+            out.case_str(&format!("p {} | {}", ps[1 + i % 2].tokens(), v));
+            if i % 2 == 0 {
+                out.case_str(&format!("p {} | {}", wide.tokens(), v));
+            }
+        }
+    }
     // 3. random value x random options, with straddling limits for every fifth
     let n = if full { 300000 } else { 12000 };
     for k in 0..n {
@@ -493,9 +516,29 @@ pub fn generate_layout(args: &Args, out: &mut Out) {
     }
 }
 
+/// Values whose one-line form is far wider than 64 KiB (and than any 16- or 32-bit width a
+/// printer might keep): a long array of numbers, one very long string, an object of many entries
+/// under one key, the same one level down.
+fn big_values(full: bool) -> Vec<String> {
+    let n = if full { 70000 } else { 35000 };
+    let mut v = vec![];
+    let nums: Vec<String> = (0..n).map(|i| format!("#{:x}", 0x30 + i % 10)).collect();
+    v.push(format!("[ {} ]", nums.join(" ")));
+    let long: Vec<String> = (0..(n * 2 + 5536)).map(|i| format!("{:x}", if i % 997 == 0 { 0xe9 } else { 0x61 + i % 26 })).collect();
+    v.push(format!("[ ${} ]", long.join(",")));
+    v.push(format!("{{ $6b [ ${} #31 ] }}", long.join(",")));
+    let ents: Vec<String> = (0..n / 2).map(|i| format!("$6b #{:x}", 0x30 + i % 10)).collect();
+    v.push(format!("{{ {} }}", ents.join(" ")));
+    v.push(format!("[ [ {} ] n ]", nums[..n / 2].join(" ")));
+    v
+}
+
 pub fn generate_c08(args: &Args, out: &mut Out) {
     let mut rng = Rng::new(args.seed);
     let full = args.thorough();
+    for v in big_values(full) {
+        out.case_str(&format!("c | {v}"));
+    }
     // every scalar value (thorough) or boundaries + samples (quick) as a one-character string and key
     let scalars: Vec<u32> = if full {
         (0..0x110000u32).filter(|c| !(0xd800..0xe000).contains(c)).collect()
